@@ -281,7 +281,14 @@ def run_transform(cell, seed):
                 if (d < 0).any():
                     drop = float((-d).max())
                     i = (d < 0).any(-1).nonzero()[0].item()
-                    fails.add("monotone", f"decreases along increasing raw err={drop:.3e}",
+                    rows = (d < 0).any(-1).nonzero().reshape(-1)
+                    at_thr = bool(((x[rows].abs() - 20.0).abs() <= 1e-12).all() | ((x[rows + 1].abs() - 20.0).abs() <= 1e-12).all())
+                    thr_gap = math.log1p(math.exp(-20.0))
+                    if cfg["tf"] == "softplus" and at_thr and drop <= thr_gap * (1 + 1e-6) + 2 * unit:
+                        sym = f"decreases by <= log1p(exp(-20)) = 2.06e-9 across the softplus threshold |raw| = 20 err={drop:.3e}"
+                    else:
+                        sym = f"decreases along increasing raw err={drop:.3e}"
+                    fails.add("monotone", sym,
                               f"raw {x[i].item()!r} -> {x[i + 1].item()!r}: {yy[i].reshape(-1)[0].item()!r} -> {yy[i + 1].reshape(-1)[0].item()!r}")
                     sigs.append("nonmono")
             sat_hi = int((y == hi).sum())
@@ -300,7 +307,7 @@ def run_transform(cell, seed):
                     for t in (lo, hi):
                         scale = torch.maximum(scale, torch.where(torch.isfinite(t), t.abs(), torch.zeros_like(t)).expand(y.shape))
                     ref_mag = torch.clamp(Xb.abs(), min=1.0)
-                    draw = 8 * eps * scale / dT
+                    draw = 8 * torch.clamp(eps * scale, min=5e-324) / dT  # ulp of the image; never below the subnormal spacing
                     interior = torch.isfinite(y) & (y > lo) & (y < hi) & (draw <= 1e-7 * ref_mag)
                     notes["interior_points"] = int(interior.sum())
                     err = ((r - Xb).abs() / ref_mag)
@@ -748,22 +755,33 @@ class HistoryRun:
             else:
                 v, inb = self.value_for(op, pm)
             before = self.snapshot(root)
+            # value ladder: python float -> 0-dim tensor -> tensor of the parameter's shape. A setter that does not take a bare float
+            # (TypeError / AttributeError) or does not broadcast a scalar is not a fail: the next rung is tried. In-bounds values must be
+            # accepted on some rung; out-of-bounds values must be rejected on EVERY rung.
+            rungs = [v]
+            if isinstance(v, float):
+                rungs.append(torch.tensor(v, dtype=F64))
+                if int(np.prod(pm.shape)) > 1:
+                    rungs.append(torch.full(pm.shape, v, dtype=F64))
             raised = None
-            for attempt in (0, 1):
+            for k, val in enumerate(rungs):
                 try:
                     if op == "init_pub":
-                        self.acc(root).initialize(**{t["acc_prop"]: v})
+                        self.acc(root).initialize(**{t["acc_prop"]: val})
                     else:
-                        setattr(self.acc(root), t["acc_prop"], v)
+                        setattr(self.acc(root), t["acc_prop"], val)
                     raised = None
+                    v = val
+                    if k:
+                        self.notes["float_retries"] += 1
                     break
                 except Exception as e:  # noqa: BLE001 - any exception type is a rejection
                     raised = e
-                    if attempt == 0 and isinstance(v, float) and isinstance(e, (TypeError, AttributeError)):
-                        v = torch.tensor(v, dtype=F64)  # setter does not take bare floats: not a fail, retry with a tensor
-                        self.notes["float_retries"] += 1
-                        continue
-                    break
+                    if k == 0 and isinstance(val, float) and not isinstance(e, (TypeError, AttributeError)) and not inb:
+                        pass  # rejected as a float: still try the tensor forms, all must be rejected
+                    if k == 0 and isinstance(val, float) and isinstance(e, (TypeError, AttributeError)):
+                        self.notes["setter_refuses_float"] = self.notes.get("setter_refuses_float", 0) + 1
+                    continue
             vnp = v.detach().numpy() if torch.is_tensor(v) else np.asarray(v, float)
             if inb:
                 if raised is not None:
@@ -797,10 +815,23 @@ class HistoryRun:
                 n = int(np.prod(pm.shape))
                 rnp = (40.0 * (-1.0) ** np.arange(n)).reshape(pm.shape)
                 r = torch.tensor(rnp)
-            try:
-                root.initialize(**{t["pname"]: r})
-            except Exception as e:  # noqa: BLE001
-                self.fail("accept", f"initialize(raw=finite) rejected: {util.exc_str(e)[:120]}", hist, f"raw={rnp.reshape(-1)[:2].tolist()}")
+            err = None
+            for val in ([r, torch.tensor(rnp)] if isinstance(r, float) else [r]):
+                try:
+                    root.initialize(**{t["pname"]: val})
+                    err = None
+                    break
+                except (TypeError, AttributeError) as e:
+                    err = e
+                    if isinstance(val, float):  # documented ("a tensor, a float, or an int") but refused for constrained parameters: noted, not failed
+                        self.notes["initialize_raw_float_refused"] = self.notes.get("initialize_raw_float_refused", 0) + 1
+                        continue
+                    break
+                except Exception as e:  # noqa: BLE001
+                    err = e
+                    break
+            if err is not None:
+                self.fail("accept", f"initialize(raw=finite) rejected: {util.exc_str(err)[:120]}", hist, f"raw={rnp.reshape(-1)[:2].tolist()}")
                 return
             pm.raw = rnp.copy()
             self.check_state(root, pm, hist)
